@@ -73,5 +73,6 @@ package cron
 //@ func AddHooks$2
 //@   ensures[C15.remhook_unregisters] result == nil && lastSched != "" ==> cronRemId == id
 //@ func AddHooks
-//@   ghost-ensures result == nil ==> hooksInstalled
+//@   ensures[C15.addhooks_always_installs] result == nil
+//@   ghost-ensures hooksInstalled
 //@   also-modifies hooksInstalled
